@@ -27,6 +27,7 @@ Oops :: enum { Bad, Worse };
 #   ("D",) defer print        ("P",) print
 #   ("B", label|None, items)  plain / labelled block
 #   ("W", label|None, items)  while (2 iterations)      ("O", items) loop (leaves by a generated break on the 3rd iteration)
+#   ("V", items) while whose condition block breaks out of the loop on its 3rd evaluation
 #   ("I", items)              if (taken when the driving counter == 1)
 #   ("X", kind, label|None)   exit: kind in break, continue, return, try
 
@@ -87,6 +88,7 @@ def gen_items(budget, depth, ctx):
         if items:
             yield ("W", None, items), used + 1
             yield ("O", items), used + 1
+            yield ("V", items), used + 1
     if new_label:
         for items, used in gen_blocks(budget - 1, depth - 1, (loops + (new_label,), targets + (("loop", new_label),))):
             if items and uses_label(items, new_label):
@@ -99,7 +101,7 @@ def uses_label(items, label):
             return True
         if it[0] in ("B", "W") and uses_label(it[2], label):
             return True
-        if it[0] in ("O", "I") and uses_label(it[1], label):
+        if it[0] in ("O", "V", "I") and uses_label(it[1], label):
             return True
     return False
 
@@ -111,7 +113,7 @@ def interesting(items):
             return True
         if it[0] in ("B", "W") and interesting(it[2]):
             return True
-        if it[0] in ("O", "I") and interesting(it[1]):
+        if it[0] in ("O", "V", "I") and interesting(it[1]):
             return True
     return False
 
@@ -169,6 +171,14 @@ class Printer:
                 self.lines.append(f"{pad}loop {{")
                 self.lines.append(f"{pad}    {c} += 1;")
                 self.lines.append(f"{pad}    if {c} > 2 {{ break; }}")
+                self.block(it[1], ind + 1, c)
+                self.lines.append(f"{pad}}}")
+            elif k == "V":
+                # a `while` whose condition is a block that leaves the loop by its own `break` on the 3rd evaluation
+                c = f"i{self.n_loop}"
+                self.n_loop += 1
+                self.lines.append(f"{pad}{c} := 0;")
+                self.lines.append(f"{pad}while {{ {c} += 1; if {c} > 2 {{ break; }} true }} {{")
                 self.block(it[1], ind + 1, c)
                 self.lines.append(f"{pad}}}")
             elif k == "X":
@@ -240,7 +250,7 @@ class Interp:
                 self.n_print += 1
             elif k in ("B", "W"):
                 res.append((k, it[1], self.number(it[2])))
-            elif k in ("O", "I"):
+            elif k in ("O", "V", "I"):
                 res.append((k, self.number(it[1])))
             else:
                 res.append(it)
@@ -276,7 +286,7 @@ class Interp:
                 elif k == "I":
                     if counter[0] == 1:
                         self.block(it[1], counter)
-                elif k in ("W", "O"):
+                elif k in ("W", "O", "V"):
                     body = it[2] if k == "W" else it[1]
                     label_ = it[1] if k == "W" else None
                     c = [0]
@@ -284,7 +294,7 @@ class Interp:
                         if k == "W" and not c[0] < 2:
                             break
                         c[0] += 1
-                        if k == "O" and c[0] > 2:
+                        if k in ("O", "V") and c[0] > 2:
                             break
                         try:
                             self.block(body, c)
@@ -350,7 +360,7 @@ def has_try(items):
             return True
         if it[0] in ("B", "W") and has_try(it[2]):
             return True
-        if it[0] in ("O", "I") and has_try(it[1]):
+        if it[0] in ("O", "V", "I") and has_try(it[1]):
             return True
     return False
 
@@ -365,8 +375,8 @@ def encode(items):
             out.append(("`" + it[1] + ":" if it[1] else "") + "{" + encode(it[2]) + "}")
         elif k == "W":
             out.append(("`" + it[1] + ":" if it[1] else "") + "W{" + encode(it[2]) + "}")
-        elif k == "O":
-            out.append("O{" + encode(it[1]) + "}")
+        elif k in ("O", "V"):
+            out.append(k + "{" + encode(it[1]) + "}")
         elif k == "I":
             out.append("I{" + encode(it[1]) + "}")
         else:
@@ -380,7 +390,7 @@ def count_items(items):
         n += 1
         if it[0] in ("B", "W"):
             n += count_items(it[2])
-        elif it[0] in ("O", "I"):
+        elif it[0] in ("O", "V", "I"):
             n += count_items(it[1])
     return n
 
